@@ -67,6 +67,16 @@ func judgeC12(hst Hist) *h.Verdict {
 				InvocationTimeStamp:      &now, InvocationSequenceNumber: 5, NotifyUri: env.Sink.URL + "/notify/hijacked"}
 			units, _, _ := w.buildUnits(op, nil, true)
 			req.MultipleUnitUsage = units
+			// what the rejected request carries besides the reference: usage (default), nothing at all, or a trigger only
+			switch op.Trig {
+			case "bare":
+				req.MultipleUnitUsage = nil
+				v.Label("rejected-request-without-usage")
+			case "trigger-only":
+				req.MultipleUnitUsage = nil
+				req.Triggers = trig("VOLUME_LIMIT")
+				v.Label("rejected-request-without-usage")
+			}
 			verb := "update"
 			if op.Sess%2 == 1 {
 				verb = "release"
@@ -253,7 +263,8 @@ func genC12(t *rapid.T) Hist {
 		ops = append(ops, op)
 		if rapid.IntRange(0, 2).Draw(t, "bad") == 0 {
 			b := Op{K: "bad", S: op.S, Sess: rapid.IntRange(0, 1).Draw(t, "verb"),
-				Bad: rapid.SampledFrom([]string{"unknown-sub", "unknown-ref", "stale-ref", "foreign-ref"}).Draw(t, "badKind"),
+				Bad:  rapid.SampledFrom([]string{"unknown-sub", "unknown-ref", "stale-ref", "foreign-ref"}).Draw(t, "badKind"),
+				Trig: rapid.SampledFrom([]string{"", "", "", "bare", "trigger-only"}).Draw(t, "badCarries"),
 				UUs: []UU{{RG: int32(rapid.IntRange(1, 3).Draw(t, "brg")), Req: int32(rapid.IntRange(0, 500).Draw(t, "breq")),
 					Conts: []Cont{{Q: "online", Tot: int32(rapid.IntRange(0, 300).Draw(t, "btot")), Pm: -1}}}}}
 			ops = append(ops, b)
